@@ -4,8 +4,10 @@
      variant "mem"   = cache.L2InMemoryCache       (/repo/cache/l2inmemorycache.go, l2inmemorycache.sharded_map.go)
      variant "redis" = adapters/redis client        (/repo/adapters/redis/locker.go)
 
-   tab[k] = (owner lock id, expiry) is the lock table (one shard of the in-memory `locks` map / the Redis
-   key space), `now` a logical clock.  An entry is live iff now < expiry.  One *step* of the specification is
+   tab[k] = (owner lock id, remaining time) is the lock table (one shard of the in-memory `locks` map / the
+   Redis key space).  Time is kept *relative*: x = expiry - now, decremented by Tick, so that the state space is
+   finite without bounding the clock; an entry is live iff x > 0 (the code: not time.Now().After(expiration)).
+   Expired in-memory entries keep counting down to Floor (their order matters for the eviction victim).  One *step* of the specification is
    one atomic access of the implementation to the table:
      mem   : loadOrStore / compareAndSwap / compareAndDelete / load on one key (under the shard mutex)
      redis : one Redis command on one key (SET NX PX, GET, GETEX) or one multi-key DEL
@@ -36,7 +38,7 @@ EXTENDS Integers, Sequences, FiniteSets, TLC, Json
 CONSTANTS Owners,             \* lock ids (strings)
           Keys,               \* lock keys, integers; the integer order is the sort order of the key names
           TTLs,               \* lock durations, in clock units
-          MaxNow,             \* bound of the clock in exhaustive runs
+          FloorN,             \* expired entries keep counting down to -FloorN
           Variants,           \* subset of {"mem", "redis"}
           Caps,               \* table capacities (entries); Inf for unbounded
           AllowEvictLive,     \* finding action: mem insert into a full table evicts a live lock
@@ -45,25 +47,26 @@ CONSTANTS Owners,             \* lock ids (strings)
           MaxHist             \* bound on the recorded history (atomic model with history only)
 
 VARIABLES variant, cap,       \* configuration, fixed by Init
-          tab,                \* [Keys -> [o: owner or None, x: expiry]]
-          now,                \* clock
+          tab,                \* [Keys -> [o: owner or None, x: remaining time]]
           flag,               \* [Owners -> [Keys -> BOOLEAN]]  client side LockKey.IsLockOwner (redis only; read by Unlock)
           call,               \* [Owners -> call record]  the public call in progress
           grant,              \* ghost: [Owners -> [Keys -> expiry or 0]]  what each owner was told it holds
           tainted,            \* ghost: a finding action was taken
           hist                \* ghost: history of calls (atomic model; hidden by VIEW)
 
-vars == <<variant, cap, tab, now, flag, call, grant, tainted, hist>>
-view == <<variant, cap, tab, now, flag, call, grant, tainted>>
+vars == <<variant, cap, tab, flag, call, grant, tainted, hist>>
+view == <<variant, cap, tab, flag, call, grant, tainted>>
 
 None  == "-"
+Floor == 0 - FloorN
 Inf   == 99
 Empty == [o |-> None, x |-> 0]
 Ops   == {"Lock", "DualLock", "IsLocked", "IsLockedTTL", "Unlock"}
 
-Live(e)   == e.o # None /\ now < e.x
+Live(e)   == e.o # None /\ e.x > 0
 Range(s)  == {s[i] : i \in 1..Len(s)}
 Min(a, b) == IF a < b THEN a ELSE b
+Max(a, b) == IF a < b THEN b ELSE a
 
 NoGx == [k \in Keys |-> 0]
 Idle == [op |-> "idle", all |-> <<>>, ks |-> <<>>, ttl |-> 0, ph |-> "idle", acq |-> <<>>, failed |-> <<>>,
@@ -74,7 +77,8 @@ Idle == [op |-> "idle", all |-> <<>>, ks |-> <<>>, ttl |-> 0, ph |-> "idle", acq
    the table, that owner's flags, its call record, the taint bit, and the configuration.
    StepSet(st, o) is the set of possible results of the next step of owner o's call.  *)
 
-Ret(st, ok, other) == [st EXCEPT !.c.ph = "ret", !.c.ok = ok, !.c.other = other, !.c.ks = <<>>]
+Ret(st, ok, other) == [st EXCEPT !.c.ph = "ret", !.c.ok = ok, !.c.other = other, !.c.ks = <<>>,
+                               !.c.acq = <<>>, !.c.failed = <<>>, !.c.nx = 0]
 
 \* --- mem: insertion of entry e under absent key k (shardedMap.loadOrStore, "Eviction logic")
 MemInsert(st, k, e) ==
@@ -97,11 +101,11 @@ MemLockStep(st, o) ==                         \* L2InMemoryCache.Lock, one key p
   LET c == st.c IN
   IF c.ks = <<>>
   THEN {IF c.op = "DualLock" THEN [st EXCEPT !.c.ph = "vchk", !.c.ks = c.all] ELSE Ret(st, TRUE, None)}
-  ELSE LET k == Head(c.ks)  e == st.tab[k]  new == [o |-> o, x |-> now + c.ttl] IN
+  ELSE LET k == Head(c.ks)  e == st.tab[k]  new == [o |-> o, x |-> c.ttl] IN
        IF e.o = None                          \* loadOrStore stored
        THEN {[st EXCEPT !.tab = r.tab, !.taint = st.taint \/ r.taint, !.c.ks = Tail(@),
                         !.c.acq = Append(@, k), !.c.gx[k] = new.x] : r \in MemInsert(st, k, new)}
-       ELSE IF ~(now < e.x)                   \* expired: compareAndSwap (also over an own expired entry)
+       ELSE IF ~(e.x > 0)                     \* expired: compareAndSwap (also over an own expired entry)
        THEN {[st EXCEPT !.tab[k] = new, !.c.ks = Tail(@), !.c.acq = Append(@, k), !.c.gx[k] = new.x]}
        ELSE IF e.o = o                        \* re-entry, TTL not refreshed
        THEN {[st EXCEPT !.c.ks = Tail(@), !.c.gx[k] = e.x]}
@@ -117,14 +121,14 @@ MemCheckStep(st, o) ==                        \* L2InMemoryCache.IsLocked (read 
   LET c == st.c IN
   IF c.ks = <<>> THEN {Ret(st, TRUE, None)}
   ELSE LET e == st.tab[Head(c.ks)] IN
-       IF e.o = o /\ now < e.x THEN {[st EXCEPT !.c.ks = Tail(@)]} ELSE {Ret(st, FALSE, None)}
+       IF e.o = o /\ e.x > 0 THEN {[st EXCEPT !.c.ks = Tail(@)]} ELSE {Ret(st, FALSE, None)}
 
 MemTTLCheckStep(st, o) ==                     \* IsLockedTTL part 1
   LET c == st.c IN
-  IF c.ks = <<>> THEN {[st EXCEPT !.c.ph = "tref", !.c.ks = c.all, !.c.nx = now + c.ttl]}
+  IF c.ks = <<>> THEN {[st EXCEPT !.c.ph = "tref", !.c.ks = c.all, !.c.nx = c.ttl]}
   ELSE LET k == Head(c.ks)  e == st.tab[k] IN
        IF e.o # o THEN {Ret(st, FALSE, None)}
-       ELSE IF ~(now < e.x) THEN {Ret([st EXCEPT !.tab[k] = Empty], FALSE, None)}   \* compareAndDelete
+       ELSE IF ~(e.x > 0) THEN {Ret([st EXCEPT !.tab[k] = Empty], FALSE, None)}   \* compareAndDelete
        ELSE {[st EXCEPT !.c.ks = Tail(@)]}
 
 MemTTLRefreshStep(st, o) ==                   \* IsLockedTTL part 2
@@ -147,7 +151,7 @@ RedisSetNXStep(st, o) ==                      \* client.Lock, pipeline 1: SET k 
   THEN {IF c.failed = <<>>
         THEN (IF c.op = "DualLock" THEN [st EXCEPT !.c.ph = "vchk", !.c.ks = c.all] ELSE Ret(st, TRUE, None))
         ELSE [st EXCEPT !.c.ph = "get", !.c.ks = c.failed]}
-  ELSE LET k == Head(c.ks)  e == st.tab[k]  new == [o |-> o, x |-> now + c.ttl] IN
+  ELSE LET k == Head(c.ks)  e == st.tab[k]  new == [o |-> o, x |-> c.ttl] IN
        IF ~Live(e)
        THEN {[st EXCEPT !.tab[k] = new, !.fl[k] = TRUE, !.c.gx[k] = new.x, !.c.ks = Tail(@)]}
        ELSE {[st EXCEPT !.c.failed = Append(@, k), !.c.ks = Tail(@)]}
@@ -171,11 +175,11 @@ RedisGetExStep(st, o) ==                      \* client.IsLockedTTL: GETEX every
   LET c == st.c IN                            \* the TTL of every live key is set, whoever owns it
   IF c.ks = <<>> THEN {Ret(st, c.ok, None)}
   ELSE LET k == Head(c.ks)  e == st.tab[k]  mine == Live(e) /\ e.o = o
-           shortens == Live(e) /\ ~mine /\ now + c.ttl < e.x      \* a non-owner cuts the holder's TTL (finding)
-           nx == IF ~Live(e) \/ (shortens /\ ~AllowForeignShorten) THEN e.x ELSE now + c.ttl
+           shortens == Live(e) /\ ~mine /\ c.ttl < e.x      \* a non-owner cuts the holder's TTL (finding)
+           nx == IF ~Live(e) \/ (shortens /\ ~AllowForeignShorten) THEN e.x ELSE c.ttl
        IN {[st EXCEPT !.tab[k].x = nx, !.taint = st.taint \/ (shortens /\ AllowForeignShorten),
                       !.fl[k] = mine, !.c.ok = c.ok /\ mine,
-                      !.c.gx[k] = IF mine THEN now + c.ttl ELSE 0, !.c.ks = Tail(@)]}
+                      !.c.gx[k] = IF mine THEN c.ttl ELSE 0, !.c.ks = Tail(@)]}
 
 RedisDelStep(st, o) ==                        \* client.Unlock: one DEL of the flagged keys
   LET c == st.c
@@ -226,7 +230,7 @@ GrantAfter(g, o, c) ==
 \* ... and asking for a TTL of d from now on means not counting on more than that
 GrantBegin(g, o, op, K, ttl) ==
   CASE op = "Unlock"      -> [g EXCEPT ![o] = [k \in Keys |-> IF k \in Range(K) THEN 0 ELSE g[o][k]]]
-    [] op = "IsLockedTTL" -> [g EXCEPT ![o] = [k \in Keys |-> IF k \in Range(K) THEN Min(g[o][k], now + ttl) ELSE g[o][k]]]
+    [] op = "IsLockedTTL" -> [g EXCEPT ![o] = [k \in Keys |-> IF k \in Range(K) THEN Min(g[o][k], ttl) ELSE g[o][k]]]
     [] OTHER              -> g
 
 RECURSIVE RunSet(_, _)
@@ -235,41 +239,80 @@ RunSet(S, o) == IF \A s \in S : s.c.ph = "ret" THEN S
 
 -----------------------------------------------------------------------------
 Init == /\ variant \in Variants /\ cap \in Caps
-        /\ tab = [k \in Keys |-> Empty] /\ now = 0
+        /\ tab = [k \in Keys |-> Empty]
         /\ flag = [o \in Owners |-> [k \in Keys |-> FALSE]]
         /\ call = [o \in Owners |-> Idle]
         /\ grant = [o \in Owners |-> NoGx]
         /\ tainted = FALSE /\ hist = <<>>
 
-\* the clock advances (at any point, also in the middle of calls); Redis drops keys at expiry
-Tick == /\ now' = now + 1
-        /\ tab' = IF variant = "redis"
-                  THEN [k \in Keys |-> IF tab[k].o # None /\ tab[k].x <= now + 1 THEN Empty ELSE tab[k]]
-                  ELSE tab
-        /\ grant' = [o \in Owners |-> [k \in Keys |-> IF grant[o][k] <= now + 1 THEN 0 ELSE grant[o][k]]]
-        /\ UNCHANGED <<variant, cap, flag, call, tainted>>
+\* one unit of time passes (at any point, also in the middle of calls); Redis drops keys at expiry
+Dec0(x) == Max(x - 1, 0)
+Tick == /\ tab' = [k \in Keys |-> IF tab[k].o = None THEN Empty
+                                  ELSE IF variant = "redis" /\ tab[k].x <= 1 THEN Empty
+                                  ELSE [tab[k] EXCEPT !.x = Max(@ - 1, Floor)]]
+        /\ grant' = [o \in Owners |-> [k \in Keys |-> Dec0(grant[o][k])]]
+        /\ call' = [o \in Owners |-> [call[o] EXCEPT !.gx = [k \in Keys |-> Dec0(@[k])],
+                                                     !.nx = IF call[o].ph = "tref" THEN Max(@ - 1, Floor) ELSE @]]
+        /\ UNCHANGED <<variant, cap, flag, tainted>>
 
 \* ---- fine grained model
 Begin(o, op, K, ttl) ==
   /\ call[o].ph = "idle"
   /\ call' = [call EXCEPT ![o] = NewCall(variant, op, K, ttl)]
   /\ grant' = GrantBegin(grant, o, op, K, ttl)
-  /\ UNCHANGED <<variant, cap, tab, now, flag, tainted, hist>>
+  /\ UNCHANGED <<variant, cap, tab, flag, tainted, hist>>
 
 Step(o) ==
   /\ call[o].ph \notin {"idle", "ret"}
   /\ \E s \in StepSet(Local(o, call[o]), o) :
         /\ tab' = s.tab /\ flag' = [flag EXCEPT ![o] = s.fl] /\ call' = [call EXCEPT ![o] = s.c]
         /\ tainted' = s.taint
-  /\ UNCHANGED <<variant, cap, now, grant, hist>>
+  /\ UNCHANGED <<variant, cap, grant, hist>>
 
 Return(o, ok, other) ==
   /\ call[o].ph = "ret" /\ call[o].ok = ok /\ call[o].other = other
   /\ grant' = GrantAfter(grant, o, call[o])
   /\ call' = [call EXCEPT ![o] = Idle]
-  /\ UNCHANGED <<variant, cap, tab, now, flag, tainted, hist>>
+  /\ UNCHANGED <<variant, cap, tab, flag, tainted, hist>>
 
-FTick == now < MaxNow /\ Tick /\ UNCHANGED hist
+FTick == Tick /\ UNCHANGED hist
+
+\* ---- the same with the purely local steps merged into their neighbours (exhaustive model): the invocation is
+\* merged with the call's first table access, the return with its last one, phase changes with the access before.
+Bookkeeping(s) == /\ s.c.ph \notin {"ret", "idle"}
+                  /\ IF s.c.ph = "del" THEN {k \in Range(s.c.all) : s.fl[k]} = {} ELSE s.c.ks = <<>>
+RECURSIVE Norm(_, _)
+Norm(s, o) == IF Bookkeeping(s) THEN Norm(CHOOSE n \in StepSet(s, o) : TRUE, o) ELSE s
+
+Apply(o, s, g) ==
+  /\ tab' = s.tab /\ flag' = [flag EXCEPT ![o] = s.fl] /\ tainted' = s.taint
+  /\ IF s.c.ph = "ret" THEN call' = [call EXCEPT ![o] = Idle] /\ grant' = GrantAfter(g, o, s.c)
+                        ELSE call' = [call EXCEPT ![o] = s.c] /\ grant' = g
+  /\ UNCHANGED <<variant, cap, hist>>
+
+MBegin(o, op, K, ttl) ==
+  /\ call[o].ph = "idle"
+  /\ \E s \in StepSet(Norm(Local(o, NewCall(variant, op, K, ttl)), o), o) :
+        Apply(o, Norm(s, o), GrantBegin(grant, o, op, K, ttl))
+
+MStep(o) ==
+  /\ call[o].ph # "idle"
+  /\ \E s \in StepSet(Local(o, call[o]), o) : Apply(o, Norm(s, o), grant)
+
+\* ---- for traces of interleaved executions: invocation / one table access (= one Redis command) / return
+TBegin(o, op, K, ttl) ==
+  /\ call[o].ph = "idle"
+  /\ call' = [call EXCEPT ![o] = Norm(Local(o, NewCall(variant, op, K, ttl)), o).c]
+  /\ grant' = GrantBegin(grant, o, op, K, ttl)
+  /\ UNCHANGED <<variant, cap, tab, flag, tainted, hist>>
+
+TStep(o) ==
+  /\ call[o].ph \notin {"idle", "ret"}
+  /\ \E s \in StepSet(Local(o, call[o]), o) :
+        LET n == Norm(s, o) IN
+        /\ tab' = n.tab /\ flag' = [flag EXCEPT ![o] = n.fl] /\ call' = [call EXCEPT ![o] = n.c]
+        /\ tainted' = n.taint
+  /\ UNCHANGED <<variant, cap, grant, hist>>
 
 \* ---- a whole call without interleaving (serial executions)
 CallRec(o, op, K, ttl, ok, other) == [o |-> o, op |-> op, ks |-> K, ttl |-> ttl, ok |-> ok, other |-> other]
@@ -280,14 +323,14 @@ ACall(o, op, K, ttl, ok, other) ==
         /\ s.c.ok = ok /\ s.c.other = other
         /\ tab' = s.tab /\ flag' = [flag EXCEPT ![o] = s.fl] /\ tainted' = s.taint
         /\ grant' = GrantAfter(GrantBegin(grant, o, op, K, ttl), o, s.c)
-  /\ UNCHANGED <<variant, cap, now, call>>
+  /\ UNCHANGED <<variant, cap, call>>
 
 AStep(o, op, K, ttl, ok, other) ==
   /\ Len(hist) < MaxHist
   /\ ACall(o, op, K, ttl, ok, other)
   /\ hist' = Append(hist, CallRec(o, op, K, ttl, ok, other))
 
-ATick == /\ now < MaxNow /\ Len(hist) < MaxHist /\ Tick
+ATick == /\ Len(hist) < MaxHist /\ Tick
          /\ hist' = Append(hist, CallRec(None, "Tick", <<>>, 0, TRUE, None))
 
 \* key sequences tried by the exhaustive models: every non-empty subset, ascending
@@ -296,20 +339,29 @@ SeqOf(S) == SortSeq(CHOOSE s \in [1..Cardinality(S) -> S] : \A i, j \in 1..Cardi
 KeySeqs == {SeqOf(S) : S \in SUBSET Keys \ {{}}}
 Results == BOOLEAN \X (Owners \cup {None})
 
-FNext == \/ \E o \in Owners, op \in Ops, K \in KeySeqs, ttl \in TTLs : Begin(o, op, K, ttl)
-         \/ \E o \in Owners : Step(o)
-         \/ \E o \in Owners, r \in Results : Return(o, r[1], r[2])
+\* IsLocked and Unlock take no duration
+TTLsOf(op) == IF op \in {"IsLocked", "Unlock"} THEN {0} ELSE TTLs
+
+FNext == \/ \E o \in Owners, op \in Ops, K \in KeySeqs : \E ttl \in TTLsOf(op) : MBegin(o, op, K, ttl)
+         \/ \E o \in Owners : MStep(o)
          \/ FTick
 
-ANext == \/ \E o \in Owners, op \in Ops, K \in KeySeqs, ttl \in TTLs, r \in Results : AStep(o, op, K, ttl, r[1], r[2])
+ANext == \/ \E o \in Owners, op \in Ops, K \in KeySeqs, r \in Results : \E ttl \in TTLsOf(op) : AStep(o, op, K, ttl, r[1], r[2])
          \/ ATick
 
+\* whole calls without recording the history (exhaustive atomic model)
+AStepNoHist(o, op, K, ttl, ok, other) == ACall(o, op, K, ttl, ok, other) /\ UNCHANGED hist
+ANoHistNext == \/ \E o \in Owners, op \in Ops, K \in KeySeqs, r \in Results : \E ttl \in TTLsOf(op) :
+                     AStepNoHist(o, op, K, ttl, r[1], r[2])
+               \/ FTick
+
 FSpec == Init /\ [][FNext]_vars
+ASpecNoHist == Init /\ [][ANoHistNext]_vars
 ASpec == Init /\ [][ANext]_vars
 
 -----------------------------------------------------------------------------
 (* C28 *)
-Valid(o, k) == now < grant[o][k]
+Valid(o, k) == grant[o][k] > 0
 
 \* at any moment a key is held, unexpired, by at most one owner
 MutualExclusionRaw == \A k \in Keys : \A o1, o2 \in Owners : (Valid(o1, k) /\ Valid(o2, k)) => o1 = o2
@@ -322,7 +374,7 @@ OnlyOwnerReleases == ~tainted => OnlyOwnerReleasesRaw
 NeverTainted == (~AllowEvictLive /\ ~AllowForeignDelete /\ ~AllowForeignShorten) => ~tainted
 
 TypeOK == /\ variant \in {"mem", "redis"} /\ cap \in Nat \ {0}
-          /\ \A k \in Keys : tab[k].o \in Owners \cup {None} /\ tab[k].x \in Nat
+          /\ \A k \in Keys : tab[k].o \in Owners \cup {None} /\ tab[k].x \in Int
           /\ \A o \in Owners : call[o].ph \in {"idle", "ret", "lock", "rb", "chk", "vchk", "tchk", "tref", "unl",
                                                 "setnx", "get", "getex", "del"}
           /\ (variant = "mem" => \A o \in Owners, k \in Keys : ~flag[o][k])
